@@ -84,6 +84,7 @@ def check(ctx: Ctx) -> None:
     # with a SUBSET of the committed rows instead of raising or answering in full
     from .c10 import r11 as c10_r11_
     c10_r11_(ctx, "C14.R15")
+    entry_paths_read_strictly(ctx, "C14.R16")
 
 
 ROW_SOURCE_OWNERS: Dict[str, str] = {
@@ -649,6 +650,39 @@ def r3(ctx: Ctx) -> None:
                 ok = False
                 why += f" - but the key `{' | '.join(norm_text(x_)[:50] for x_ in srcs if x_ is not None)}` is not the file's path"
         ctx.ob("C14.R3", f, "`continue` only for an empty path entry or a duplicate", s_, ok, f"skip condition: `{why}`")
+    # when a path is listed twice the FIRST entry is the one kept (the entry written together with the file carries its recorded
+    # checksum; a later re-registration may not): a dict filled with update() / plain item assignment keeps the LAST
+    rets_all = [n for n in g.nodes if n.kind == "return" and n.id in g.reachable() and n.ast is not None and n.ast.value is not None]
+    dicts = set()
+    for r in rets_all:
+        for e_ in list(sl.origins(r.ast.value, r.id)["exprs"]) + [r.ast.value]:  # type: ignore[union-attr]
+            for x in ast.walk(e_):
+                if isinstance(x, ast.Call) and isinstance(x.func, ast.Attribute) and x.func.attr == "values" and isinstance(x.func.value, ast.Name):
+                    dicts.add(x.func.value.id)
+    for dname in sorted(dicts):
+        last_wins = []
+        for n in g.nodes:
+            if n.id not in g.reachable() or n.ast is None:
+                continue
+            if n.kind == "call" and isinstance(n.ast, ast.Call) and isinstance(n.ast.func, ast.Attribute) and n.ast.func.attr == "update" \
+                    and isinstance(n.ast.func.value, ast.Name) and n.ast.func.value.id == dname:
+                last_wins.append(n)
+            if n.kind == "stmt" and isinstance(n.ast, ast.Assign) and any(isinstance(t, ast.Subscript) and isinstance(t.value, ast.Name)
+                                                                        and t.value.id == dname for t in n.ast.targets):
+                key_txt = next(norm_text(t.slice) for t in n.ast.targets if isinstance(t, ast.Subscript))
+                guarded = any(pol in ("true", "false") and isinstance(e_, ast.Compare) and len(e_.ops) == 1
+                              and isinstance(e_.comparators[0], ast.Name) and e_.comparators[0].id == dname and norm_text(e_.left) == key_txt
+                              and ((isinstance(e_.ops[0], ast.NotIn) and pol == "true") or (isinstance(e_.ops[0], ast.In) and pol == "false"))
+                              for pol, e_, _a in facts_at(ctx, f, n))
+                if not guarded:
+                    last_wins.append(n)
+            if n.kind == "stmt" and isinstance(n.ast, ast.Assign) and len(n.ast.targets) == 1 and isinstance(n.ast.targets[0], ast.Name) \
+                    and n.ast.targets[0].id == dname and isinstance(n.ast.value, ast.DictComp):
+                last_wins.append(n)
+        ctx.ob("C14.R3", f, "a path listed twice keeps its FIRST entry", last_wins[0] if last_wins else None, not last_wins,
+               f"`{dname}` is filled with setdefault / a guarded store" if not last_wins else
+               f"`{last_wins[0].text[:60]}`: the LAST entry for a path replaces the first - an entry re-registered without its "
+               "checksum switches verification off for that file", text=dname)
 
 
 def r4(ctx: Ctx) -> None:
@@ -924,3 +958,38 @@ def r5(ctx: Ctx) -> None:
         ck = kwarg(c.ast, "checksum")
         ctx.ob("C14.R5", rm, "manifest reader restores the checksum", c, ck is not None and "checksum" in norm_text(ck),
                "DataFile(checksum=<record>['checksum'])")
+
+
+def entry_paths_read_strictly(ctx: Ctx, rid: str) -> None:
+    ctx.rule(rid, "an entry without a path is not an entry: the path of every decoded DataFile / ManifestFile (file_path / "
+             "manifest_path) is read from the parsed record with a SUBSCRIPT - a `.get(...)` turns a damaged entry into a record "
+             "whose path is None, which the reader skips: the table answers with a subset of its rows (or as empty) instead of raising", 2)
+    fm = ctx.prog.modules.get("datashard.file_manager")
+    if fm is None:
+        raise AnalysisError("file_manager module vanished")
+    n = 0
+    for cname, fld in (("DataFile", "file_path"), ("ManifestFile", "manifest_path")):
+        for f in sorted((x for x in ctx.prog.functions.values() if x.module is fm and not isinstance(x.node, ast.Lambda)), key=lambda x: x.qname):
+            if not (f.name.startswith("read_") or f.name.startswith("_")) or "create" in f.name or "write" in f.name:
+                continue
+            for c in [x for x in ast.walk(f.node) if isinstance(x, ast.Call) and (dotted(x.func) or "").split(".")[-1] == cname]:
+                vals = [k.value for k in c.keywords if k.arg == fld]
+                for k in c.keywords:
+                    if k.arg is None and isinstance(k.value, ast.Name):  # **fields with `fields = {..}` built in this function
+                        for d in [a.value for a in ast.walk(f.node) if isinstance(a, ast.Assign) and len(a.targets) == 1
+                                  and isinstance(a.targets[0], ast.Name) and a.targets[0].id == k.value.id and isinstance(a.value, ast.Dict)]:
+                            vals += [v for kk, v in zip(d.keys, d.values) if isinstance(kk, ast.Constant) and kk.value == fld]
+                        for d in [a.value for a in ast.walk(f.node) if isinstance(a, ast.Assign) and len(a.targets) == 1
+                                  and isinstance(a.targets[0], ast.Name) and a.targets[0].id == k.value.id and isinstance(a.value, ast.DictComp)]:
+                            vals.append(d.value)  # a comprehension that was not unrolled: its value expression serves every key
+                if not vals:
+                    continue
+                for v in vals:
+                    n += 1
+                    lenient = [x for x in ast.walk(v) if isinstance(x, ast.Call) and isinstance(x.func, ast.Attribute) and x.func.attr in ("get", "pop", "setdefault")]
+                    strict = any(isinstance(x, ast.Subscript) for x in ast.walk(v))
+                    ctx.ob(rid, f, f"{cname}.{fld} is read with a subscript", None, strict and not lenient,
+                           f"`{norm_text(v)[:60]}`" + ("" if strict and not lenient else ": a record that lost its path is decoded with path None and "
+                                                       "silently skipped by the readers"), text=f"{cname}:{norm_text(v)[:40]}", line=c.lineno)
+    if n == 0:
+        raise AnalysisError("no DataFile / ManifestFile constructed from a parsed record in file_manager")
